@@ -143,7 +143,7 @@ def url_case(url, through_connect=True):
     return None
 
 
-def addr_case(outs, user_opt, timeout, other_errno):
+def addr_case(outs, user_opt, timeout, other_errno, tsrc="settimeout"):
     """outs: tuple of outcome kinds (index into OUTCOMES)"""
     lib.reset_globals()
     env.install_urandom("counter")
@@ -157,16 +157,28 @@ def addr_case(outs, user_opt, timeout, other_errno):
     simnet.install(net)
     sockopt = [(S.SOL_SOCKET, S.SO_RCVBUF, 12345)] if user_opt else []
     label = "addresses %r sockopt=%r timeout=%r" % (kinds, sockopt, timeout)
+    label += " timeout-source=%s" % tsrc
+    ws = None
     try:
-        ws = lib.websocket.WebSocket(sockopt=sockopt)
-        ws.settimeout(timeout)
         try:
-            ws.connect("ws://multi.example/")
+            if tsrc == "create_connection":
+                ws = lib.websocket.create_connection("ws://multi.example/", timeout=timeout, sockopt=sockopt)
+            elif tsrc == "setdefaulttimeout":
+                lib.websocket.setdefaulttimeout(timeout)
+                ws = lib.websocket.create_connection("ws://multi.example/", sockopt=sockopt)
+            elif tsrc == "connect-option":
+                ws = lib.websocket.WebSocket(sockopt=sockopt)
+                ws.connect("ws://multi.example/", timeout=timeout)
+            else:
+                ws = lib.websocket.WebSocket(sockopt=sockopt)
+                ws.settimeout(timeout)
+                ws.connect("ws://multi.example/")
             out = None
         except Exception as e:
             out = e
     finally:
         simnet.uninstall()
+        lib.websocket.setdefaulttimeout(None)
     conns = [e for e in net.log if e[0] == "connect"]
     tried = [e[2][0] for e in conns]
     # reference: walk the list
@@ -212,7 +224,7 @@ def addr_case(outs, user_opt, timeout, other_errno):
     # no leak
     open_ = net.open_socks()
     if out is None:
-        if len(open_) != 1 or open_[0] is not ws.sock:
+        if len(open_) != 1 or ws is None or open_[0] is not ws.sock:
             return (dict(sigk, kind="socket-leak"), "%s: %d sockets open after success" % (label, len(open_)))
     elif open_:
         return (dict(sigk, kind="socket-leak"), "%s: %d sockets open after failure" % (label, len(open_)))
@@ -253,8 +265,9 @@ def run_task(desc):
             for user_opt in (False, True):
                 for timeout in (None, 5):
                     for other in (OTHERS if 3 in outs else OTHERS[:1]):
-                        n += 1
-                        rec(guarded(addr_case, outs, user_opt, timeout, other), {"case": "addr", "args": [list(outs), user_opt, timeout, other]})
+                        for tsrc in (("settimeout", "connect-option", "create_connection", "setdefaulttimeout") if other == OTHERS[0] else ("settimeout",)):
+                            n += 1
+                            rec(guarded(addr_case, outs, user_opt, timeout, other, tsrc), {"case": "addr", "args": [list(outs), user_opt, timeout, other, tsrc]})
         res["samples"].append({"address_list_length": desc["k"], "outcomes": ["accept", "ECONNREFUSED", "ENETUNREACH", "other"]})
     res["execs"] = res["complete"] = res["distinct"] = n
     return res
@@ -265,5 +278,5 @@ def replay(rep):
         f = url_case(rep["url"])
     else:
         a = rep["args"]
-        f = addr_case(tuple(a[0]), a[1], a[2], a[3])
+        f = addr_case(tuple(a[0]), a[1], a[2], a[3], a[4] if len(a) > 4 else "settimeout")
     return None if f is None else {"sig": f[0], "what": f[1]}
